@@ -69,6 +69,19 @@ def r2(ctx):
         ctx.require(not raw, b, 'returns-built-output', 'clean() returns the string it built (line %d)' % b.blocks[bb].term.span['line'],
                     'clean() returns (a copy of) its raw input on some path (line %d): a separator that is whitespace but not a single space survives' % b.blocks[bb].term.span['line'],
                     b.blocks[bb].term.span)
+    # the whole input is segmented once: cleaning piece by piece (per line, per chunk) and joining the results puts a separator next to
+    # every EMPTY piece as well (a blank line gives two spaces in a row, a leading line break a leading space)
+    from rules.common import closures_in, resolve_upvars
+    for x in [b] + closures_in(ctx, b):
+        for t in x.calls(r'CharString::new$'):
+            a = core(sym(x, t.args[0]))
+            if x is not b:
+                a = core(resolve_upvars(ctx, x, a))
+            while a[0] == 'call' and re.search(r'str::trim(_start|_end)?$', a[1]) and a[2]:
+                a = core(a[2][0])      # trimming whitespace off the ends of the whole input does not change the result
+            ctx.require(match(a, ('arg', 1, ANY)), b, 'segments-whole-input', 'clean() segments its whole input (line %d)' % t.span['line'],
+                        'clean() segments `%s` (line %d), a piece of its input: the results of the pieces are joined with a separator even when a piece is empty, so the '
+                        'output can contain consecutive or leading spaces' % (show_in(x, sym(x, t.args[0]))[:60], t.span['line']), t.span)
     nx = [t for t in b.calls(r'::next$')]
     if len(nx) != 1:
         raise AnchorMissing('iteration of clean()')
@@ -291,6 +304,15 @@ def charstring_primitive(ctx):
             extra.append(a)
             continue
         table[flag[0]] = v
+    SEGCALL = Pred(lambda u: isinstance(u, tuple) and u and u[0] == 'call' and
+                   re.search(r'(graphemes|grapheme_indices|str::chars|str::char_indices|str::bytes|str::as_bytes)$', u[1]) is not None)
+    third = [a for a in extra if [tt for tt, pol in a.atoms if not match(core(tt), ('arg', 2, ANY))] or a.variants]
+    if not third and set(table) != {True, False}:
+        direct = [a for a in extra if has(core(a.value), SEGCALL)]
+        if not direct:
+            # the lengths are not a two-way choice of segmentations at this level (derived from cluster start offsets, built incrementally,
+            # ...): a constructor of another shape
+            raise AnchorMissing('CharString::new: the cluster lengths as a direct choice between graphemes(true) and chars() on the flag')
     ctx.require(not extra and set(table) == {True, False}, b, 'two-segmentations', 'CharString::new segments in exactly two ways, selected by use_graphemes alone',
                 'CharString::new has a segmentation path selected by something else than the flag (%s): e.g. an ASCII fast path counts "\\r\\n" as two characters in '
                 'grapheme mode' % [repr(x)[:100] for x in extra][:2], rle[0].span)
